@@ -141,6 +141,24 @@ def local_update(check):
             check.ok("DT-LOCAL", c.qualname, "every stage and the final update multiply the residual by the step argument itself (each cell's own value under dtlocal); only the time uses its minimum", loc)
 
 
+def local_implicit(check):
+    """implicit family under dtlocal: the per-cell step enters the system on the diagonal / as a row
+    scaling in the layout of the packed unknowns (cell-major), so that each cell uses its own value"""
+    from . import c06
+    proj = check.proj
+    for c in c06.implicit_classes(proj):
+        n0 = len(check.obs)
+        check.guarded("DT-LOCAL", c.qualname, lambda: c06.th_scheme(check, proj, c), c.loc())
+        kept = []
+        for o in check.obs[n0:]:
+            if o.status == "undecided" or (o.status == "violation" and o.key in ("dt-tiled", "col-scaling")):
+                o.rule = "DT-LOCAL"
+                kept.append(o)
+        check.obs[n0:] = kept
+        if not kept:
+            check.ok("DT-LOCAL", c.qualname, "the time-step array enters the implicit system cell by cell (np.repeat over the equations of a cell, row side of the Jacobian)", c.loc())
+
+
 def body(check):
     check.explanation = ("static analysis: each model's timestep() is lowered to value numbers and compared with "
                          "cfl*dx/spectral radius (specification table |a|, |u|, |u|+sqrt(g h), |V|+sqrt(gamma p/rho)) as a "
@@ -153,6 +171,7 @@ def body(check):
         check.guarded("DT-FORMULA", key, lambda: formula(check, key))
     check.guarded("DT-CELLSIZE", "modeldisc", lambda: cellsize(check))
     check.guarded("DT-LOCAL", "integration", lambda: local_update(check))
+    check.guarded("DT-LOCAL", "integration (implicit)", lambda: local_implicit(check))
     res, info = analyse_solve(check.proj)
     report(check, res, ("DRV-DT-MIN",))
     from ..units import check_timestep_units
